@@ -360,6 +360,19 @@ func genC09(r *RNG, tier string) []Case {
 			oo.maxCols = 12
 		}
 		h.tables = genTables(r, oo)
+		if i%40 == 3 {
+			// wide tables around the switch of the length-encoded column count to its multi-byte forms (251) and past
+			// one byte of count (256 and more)
+			t := h.tables[0]
+			target := r.Pick(250, 251, 252, 255, 256, 257, 264, 300)
+			for len(t.cols) < target {
+				c := t.cols[r.Intn(len(t.cols))]
+				c.name = fmt.Sprintf("w%d", len(t.cols))
+				t.cols = append(t.cols, c)
+			}
+			t.cols = t.cols[:target]
+			oo.maxRows = 2
+		}
 		c := genRows(r, h, oo, 0, 0, true)
 		if i%9 == 0 { // zero rows
 			c.rows = nil
